@@ -199,6 +199,19 @@ var svgDocs = [][]string{
 	{"<path d=\"M0,0", "C1,1", "2,2", "3,3", "z\"", "/>"},
 	{"<t>", ">", "<", "x>", "y", "</t>"},
 	{"<svg>", "<!-- c", "omment -->", "é", "ü>", "</svg>"},
+	// line ends / starts directly beside '-', '=', '"', digits
+	{"<path d=\"M", "-5 20", "L 3", "-", "4-", "-6\"/>"},
+	{"<text font-family=\"Helvetica-", "Bold\">", "a-", "-b", "--", "</text>"},
+	{"<!--", "comment", "-->", "<g/>"},
+	{"<rect x", "=", "\"", "-1", "\"", "/>"},
+	{"<a b=", "\"1", "2\"", "c", "=\"3\"", ">"},
+}
+
+// a line break (LF or LF + indent, optionally with a trailing blank / CR before it) at EVERY single
+// position of these documents, so that every character is met first and last on a line
+var svgEveryPos = []string{
+	"<svg w=\"-1\"><!-- a-b --><path d=\"M-5,20 L3-4 -6.5e-3\"/><text x=\"0\">a - b=c \"q\" 1<2>3</text></svg>",
+	"{\"a\":-1,\"b-c\":\"x=y\",\"d\":[1,-2,3.5e-7],\"e\":\"<->\"}",
 }
 var gaps = []string{"", " ", "\n", "\n  "}
 
@@ -229,12 +242,30 @@ func svgCases(rng *Rng, thorough bool) {
 			c07stats["svg re-broken (<= 6 tokens, every gap pattern)"]++
 		}
 	}
+	for _, doc := range svgEveryPos {
+		for i := 0; i <= len(doc); i++ {
+			for _, br := range []string{"\n", "\n  ", " \n\t", "\r\n"} {
+				v := doc[:i] + br + doc[i:]
+				for path, kp := range flatOut {
+					if path != "PanelTopology.Svgbase" && path != "PanelTopology.Json" && path != "Message.Message" {
+						continue
+					}
+					msg := &rwp.OutboundMessage{}
+					setPath(msg.ProtoReflect(), path, v)
+					outs, p := encodeOut(msg)
+					emit(L(Sym("flat"), Sym(kp[0]), Sym("out"), kp[1], v, outsSx(outs, p)))
+					c07stats["one break at every position (beside - = \" < > digits)"]++
+				}
+			}
+		}
+	}
 	// larger documents, random breaks, CRLF and tabs too
 	nr := 300
 	if thorough {
 		nr = 6000
 	}
-	toks := []string{"<svg>", "</svg>", "<g id=\"a\">", "</g>", "<path d=\"M 1 2", "L 3 4", "5 6\"/>", "text", "more text", "<rect x=\"1\"", "y=\"2\"/>", "&amp;", ">", "é"}
+	toks := []string{"<svg>", "</svg>", "<g id=\"a\">", "</g>", "<path d=\"M 1 2", "L 3 4", "5 6\"/>", "text", "more text", "<rect x=\"1\"", "y=\"2\"/>", "&amp;", ">", "é",
+		"-5", "6-", "-", "=", "\"", "<!--", "-->", "x=", "=\"1\"", "7", "a-b"}
 	rgaps := []string{"", " ", "\n", "\n  ", "\r\n", "\n\t", "\n\n", "  "}
 	for i := 0; i < nr; i++ {
 		var sb strings.Builder
